@@ -43,6 +43,9 @@ type Op struct {
 	Crash bool `json:"crash,omitempty"`
 	Dup   bool `json:"dup,omitempty"`
 	Dead  bool `json:"dead,omitempty"`
+	// Restop: the temp actor is stopped a second time after it is gone; the undeliverable stop request
+	// is a dead-letter occurrence (engine.go: "if we didn't find a process, we will broadcast a DeadletterEvent")
+	Restop bool `json:"restop,omitempty"`
 	// send
 	Tgt string `json:"tgt,omitempty"` // nil never stopped foreign live
 	Snd int    `json:"snd,omitempty"` // 0 = no sender
@@ -389,6 +392,15 @@ func run(c Case, c09 bool) (feat map[string]int, err error) {
 				h.add(exp{kind: "dl", tgt: tp, msg: "late"})
 				h.note("life-deadletter")
 			}
+			if op.Restop {
+				select {
+				case <-e.Stop(tp).Done():
+				case <-time.After(5 * time.Second):
+					return nil, fmt.Errorf("op %d: the context of a Stop for an actor that is gone never became done", oi)
+				}
+				h.add(exp{kind: "dl", tgt: tp, msg: pillMarker{}})
+				h.note("life-stop-request-dead-letters")
+			}
 			h.note("lifecycle")
 		case "send":
 			if !c09 {
@@ -625,6 +637,7 @@ func genCase(t *rapid.T, c09 bool) Case {
 			op.N = rapid.IntRange(1, 8).Draw(t, "n")
 		case "life":
 			op.Crash, op.Dup, op.Dead = rapid.Bool().Draw(t, "crash"), rapid.Bool().Draw(t, "dup"), rapid.Bool().Draw(t, "dead")
+			op.Restop = rapid.IntRange(0, 2).Draw(t, "restop") == 0
 		case "send":
 			op.Tgt = rapid.SampledFrom([]string{"nil", "never", "never", "stopped", "stopped", "foreign", "foreign", "live"}).Draw(t, "tgt")
 			op.Snd = rapid.IntRange(0, 3).Draw(t, "snd")
